@@ -57,6 +57,187 @@ def is_call_to(ev, body):
     return ev.kind == "call" and (ev.fn.get("resolved") or ev.fn).get("def") == body.key
 
 
+_FBITS = {("f32", "PI"): 0x40490FDB, ("f64", "PI"): 0x400921FB54442D18, ("f32", "ZERO"): 0, ("f64", "ZERO"): 0, ("f32", "ONE"): 0x3F800000, ("f64", "ONE"): 0x3FF0000000000000}
+
+
+def _float_prims(col, prog, rid):
+    """Float for f32 / f64: PI, ZERO, ONE are the IEEE values; sin, cos, sqrt, abs, round are std's functions of the same name
+    applied to the value; from_usize / from_i32 are the int-to-float casts; to_i64 is the float-to-int cast of the (rounded) value"""
+    nt = prog.crates.get("rlib_num_traits")
+    if nt is None:
+        raise Anchor("rlib_num_traits is not part of the export")
+    col.rule(rid, "num_traits for f32 / f64: PI, ZERO, ONE; sin, cos, sqrt, abs, round = std's; from_usize / from_i32 / to_i64 = the casts", floor=20)
+    imps = {i["key"]: i for i in nt.impls}
+    for k in nt.consts:
+        imp = imps.get(k.get("parent"))
+        if imp is None or (imp["self_ty"], k["name"]) not in _FBITS or not str(imp.get("trait") or "").endswith(("Float", "ZeroOne")):
+            continue
+        key = "<%s as %s>::%s" % (imp["self_ty"], str(imp.get("trait")).split("::")[-1], k["name"])
+        loc = "%s:%d" % (k["span"]["file"], k["span"]["line"])
+        if k.get("val") == _FBITS[(imp["self_ty"], k["name"])]:
+            col.ok(rid, loc, key, "IEEE bits %#x" % k["val"], nontrivial=False)
+        else:
+            col.violation(rid, key, loc, "%s has the bit pattern %s, not that of the constant it names: every twiddle factor / identity built on it is off" % (key, k.get("val")))
+    for b in nt.bodies:
+        imp = nt.impl_of(b)
+        if imp is None or not str(imp.get("trait") or "").endswith("Float") or imp["self_ty"] not in ("f32", "f64") or b.is_closure:
+            continue
+        ty = imp["self_ty"]
+        inl = [m for m in nt.bodies if nt.impl_of(m) is imp and m.key != b.key and not m.is_closure and m.kind in ("Fn", "AssocFn")]
+        I = util.analyser(inl)(b)
+        p1 = ("param", 1, I.names.get(1))
+        selfv = ("load", ("m0",), ("deref", p1))
+        ok = bool(I.final_states)
+        got = ""
+        from ..absint import strip_mem
+        for st in I.final_states:
+            r = strip_mem(util.ret_term(st))
+            got = tstr(r)[:80]
+            if b.name in ("sin", "cos", "sqrt", "abs", "round"):
+                ok = ok and r[0] == "call" and str(r[1]).split("::")[0] in ("std", "core") and ("<impl %s>::%s" % (ty, b.name)) in str(r[1]) and [strip_mem(x) for x in r[2] if not (isinstance(x, tuple) and x and x[0] == "mem")] == [strip_mem(selfv)]
+            elif b.name in ("from_usize", "from_i32"):
+                ok = ok and r[0] == "cast" and r[1] == "IntToFloat" and r[2] == ty and r[3] == p1
+            elif b.name == "to_i64":
+                inner = r[3] if r[0] == "cast" and r[1] == "FloatToInt" and r[2] == "i64" else None
+                rounded = inner is not None and inner[0] == "call" and str(inner[1]).endswith("::round") and [strip_mem(x) for x in inner[2] if not (isinstance(x, tuple) and x and x[0] == "mem")] in ([strip_mem(selfv)], [("ref", ("deref", p1))])
+                ok = ok and inner is not None and (inner == strip_mem(selfv) or rounded)
+            else:
+                ok = None
+        if ok is None:
+            continue
+        key = "%s|std" % fk_(b)
+        if ok:
+            col.ok(rid, b.loc(), key, got, nontrivial=False)
+        else:
+            col.violation(rid, key, b.loc(), "%s is not std's %s of the value (%s)" % (b.path, b.name, got))
+
+
+def _auto_size(col, crate, rid):
+    """fft / fft_into called with n == 0 choose the size themselves: the least power of two >= v.len() (at least 1), as a
+    doubling loop from 1 or as usize::next_power_of_two; a size passed by the caller is used as it is.  Private helpers
+    (`resolve_size(n, len)`) are judged inlined."""
+    col.rule(rid, "n == 0 selects the size automatically: start 1, doubled while it is below the input length; n != 0 is taken as given", floor=2)
+    helpers = [m for m in crate.bodies if not m.is_closure and m.kind in ("Fn", "AssocFn") and m.vis != "pub" and not util.self_recursive(m)]
+    for nm in ("FFT::<F>::fft", "FFT::<F>::fft_into"):
+        b = util.need_body(crate, nm)
+        I = util.analyser([h for h in helpers if h.key != b.key])(b)
+        pn = [i for i in range(1, b.arg_count + 1) if b.locals[i]["ty"] == "usize"]
+        pv = [i for i in range(1, b.arg_count + 1) if b.locals[i]["ty"].startswith("&") and "[i32]" in b.locals[i]["ty"]]
+        key = "%s|auto-size" % util.fkey(b)
+        if len(pn) != 1 or len(pv) != 1:
+            col.violation(rid, key, b.loc(), "%s: cannot identify the size parameter and the input slice" % b.path)
+            continue
+        Pn, Pv = ("param", pn[0], I.names.get(pn[0])), ("param", pv[0], I.names.get(pv[0]))
+        vlen = ("len", ("load", ("m0",), ("deref", Pv)))
+
+        def is_zero(st):
+            """True / False / None: what the path knows about n == 0"""
+            for f in st.facts:
+                t = f[1]
+                if f[0] == "eq" and isinstance(t, tuple) and t[:2] in (("bin", "Eq"), ("bin", "Ne")) and {t[2], t[3]} == {Pn, mk_int(0)} and f[2] in (0, 1):
+                    return bool(f[2]) == (t[1] == "Eq")
+                if f[0] in ("eq", "ne") and t == Pn and f[2] == 0:
+                    return f[0] == "eq"
+            return None
+
+        # every loop of the function and of the helpers inlined into it: (id used in phi terms, back-edge states, entry environments)
+        loops = []
+        work = [I]
+        while work:
+            x_ = work.pop()
+            for h_, l_ in x_.backedge_states.items():
+                loops.append((x_.uid(h_), l_, x_.loop_entry.get(h_, [])))
+            work.extend(getattr(x_, "inlined_subs", []))
+
+        def lt_len(f, hid, val):
+            t = f[1]
+            return f[0] == "eq" and f[2] == val and isinstance(t, tuple) and t[:2] == ("bin", "Lt") and t[2][0] == "phi" and t[2][1] == hid and t[3] == vlen
+
+        sizing = [(hid, l_, en) for hid, l_, en in loops if any(any(lt_len(f, hid, 1) for f in st.facts) for st in l_)]
+        why = None
+        fin0 = [st for st in I.final_states if is_zero(st) is True]
+        fin1 = [st for st in I.final_states if is_zero(st) is False]
+        if not fin0 or not fin1 or len(fin0) + len(fin1) != len(I.final_states):
+            why = "the paths do not split on n == 0"
+        elif len(sizing) == 1:
+            hid, l_, en = sizing[0]
+            for st in l_:
+                ph = [f[1][2] for f in st.facts if lt_len(f, hid, 1)]
+                if not ph or is_zero(st) is not True:
+                    why = "a round of the sizing loop does not run under n == 0 and size < v.len()"
+                    break
+                nv = st.env.get(ph[0][2])
+                if nv not in (("bin", "Shl", ph[0], mk_int(1)), ("bin", "Mul", ph[0], mk_int(2)), ("bin", "Mul", mk_int(2), ph[0])):
+                    why = "a round of the sizing loop turns the size into %s instead of doubling it" % tstr(nv)[:60]
+                    break
+                if not en or any(e.get(ph[0][2]) != mk_int(1) for e in en):
+                    why = "the sizing loop does not start from 1"
+                    break
+            if why is None and not all(any(lt_len(f, hid, 0) for f in st.facts) for st in fin0):
+                why = "with n == 0 a path reaches the transform without the sizing loop having ended by size >= v.len()"
+            if why is None and any(any(lt_len(f, hid, 0) or lt_len(f, hid, 1) for f in st.facts) for st in fin1):
+                why = "a size given by the caller is changed"
+        elif not sizing:
+            # the same value from std: v.len().next_power_of_two() (1 for an empty input)
+            def npot(st):
+                return [e for e in st.event_list() if e.kind == "call" and e.extra.get("name") == "next_power_of_two" and [x for x in e.args if not (isinstance(x, tuple) and x and x[0] == "mem")] == [vlen]]
+            if not all(npot(st) for st in fin0) or any(npot(st) for st in fin1):
+                why = "no loop `while n < v.len()` (and no v.len().next_power_of_two()) found on the n == 0 paths"
+        else:
+            why = "several loops compare a counter with v.len()"
+        if why is None:
+            col.ok(rid, b.loc(), key, "n == 0: size = 1, doubled while < v.len(); otherwise n as given")
+        else:
+            col.violation(rid, key, b.loc(), "%s does not choose the transform size as the least power of two >= the input length when called with n == 0: %s" % (b.path, why))
+
+
+def _empty_guard(col, crate, rid):
+    """multiply / multiply_into with an empty operand: the product is empty, nothing is added, nothing is computed (the
+    size arithmetic a.len() + b.len() - 1 is not evaluated)"""
+    col.rule(rid, "an empty operand makes multiply / multiply_into return at once (empty result / nothing added)", floor=2)
+    for nm in ("FFT::<F>::multiply", "FFT::<F>::multiply_into"):
+        b = util.need_body(crate, nm)
+        I = util.analyse(b)
+        key = "%s|empty-operand" % util.fkey(b)
+        ps = [("param", i, I.names.get(i)) for i in range(1, b.arg_count + 1) if b.locals[i]["ty"].startswith("&") and "[i32]" in b.locals[i]["ty"]]
+        if len(ps) != 2:
+            col.violation(rid, key, b.loc(), "%s: cannot identify the two operand slices" % b.path)
+            continue
+
+        def empty_fact(st, p):
+            """True / False / None: the path knows p is empty / non-empty / nothing"""
+            ln = ("len", ("load", ("m0",), ("deref", p)))
+            for f in st.facts:
+                t = f[1]
+                if f[0] == "eq" and isinstance(t, tuple) and t[:2] == ("bin", "Eq") and ln in (t[2], t[3]) and mk_int(0) in (t[2], t[3]) and f[2] in (0, 1):
+                    return bool(f[2])
+                if f[0] in ("eq", "ne") and isinstance(t, tuple) and t and t[0] == "call" and str(t[1]).endswith("::is_empty") and f[2] in (0, 1) and any(x == ("ref", ("deref", p)) or x == p for x in t[2]):
+                    return (f[0] == "eq") == bool(f[2])
+            return None
+
+        why = None
+        n_early = 0
+        for st in I.final_states + I.diverged:
+            e = [empty_fact(st, p) for p in ps]
+            busy = [ev for ev in st.event_list() if ev.kind in ("store", "loop") or (ev.kind == "call" and ev.extra.get("name") not in ("is_empty", "len", "new", "from_elem", "into_vec", "exchange_malloc", "box_new_uninit", "write_via_move"))]
+            if True in e:
+                n_early += 1
+                if busy and st in I.final_states and any(ev.kind in ("store", "loop") or (ev.kind == "call" and ev.extra.get("name") in ("fft_internal", "multiply_into", "update_n", "resize", "clear")) for ev in busy):
+                    why = "a path with an empty operand goes on to compute"
+            elif not (e[0] is False and e[1] is False):
+                why = "a path computes the product without having tested both operands for emptiness"
+        if why is None and not n_early:
+            why = "no return for an empty operand"
+        if why is None:
+            col.ok(rid, b.loc(), key, "returns at once when a or b is empty; otherwise both are known non-empty")
+        else:
+            col.violation(rid, key, b.loc(), "%s: %s (a.len() + b.len() - 1 underflows for two empty operands; the into-variant must add nothing)" % (b.path, why))
+
+
+def fk_(b):
+    return util.fkey(b)
+
+
 def check(col, prog, tier, profile, fixture=None):
     crate = prog.crate(fixture or "rlib_fft")
     sfx = "" if profile == "dev" else "@" + profile
@@ -292,11 +473,22 @@ def check(col, prog, tier, profile, fixture=None):
         else:
             col.violation("P3" + sfx, key, b.loc(), "%s must pass a zero-filled destination to %s" % (b.path, tgt))
 
+    # ---------------- P9: the automatic transform size (n == 0): the least power of two >= the input length
+    # ---------------- P10: the accumulate-into product of an empty operand returns before touching anything
+    if not fixture:
+        _auto_size(col, crate, "P9" + sfx)
+        _empty_guard(col, crate, "P10" + sfx)
+
+    # ---------------- P8: what the transform stands on for f32 / f64 (rlib_num_traits is among the property's files)
+    if not fixture:
+        _float_prims(col, prog, "P8" + sfx)
+
     # ---------------- P7: every constructor hands out a plan sized for at least 4 points
     col.rule("P7" + sfx, "every function that builds an FFT value sizes its plan (update_n(k), k >= 4) before the value escapes", floor=1)
     for b in crate.bodies:
         imp = crate.impl_of(b)
-        if b.is_closure or (imp is not None and imp.get("derived")) or b.key in {h.key for h in helpers}:
+        # (a derived Clone copies a sized plan; a derived Default builds one from empty tables and is judged like any constructor)
+        if b.is_closure or (imp is not None and imp.get("derived") and not str(imp.get("trait")).endswith("Default")) or b.key in {h.key for h in helpers}:
             continue
         sites = [(bb, idx) for bb, idx, s_ in b.statements() if s_["k"] == "assign" and s_["rv"]["k"] == "agg" and s_["rv"]["ak"]["k"] == "adt" and s_["rv"]["ak"]["def"] == adt["key"]]
         if not sites:
